@@ -275,10 +275,11 @@ REGISTRY = {
     'C18': dict(fn=c18, level='exploration',
                 rule='singleton MPI_Init (no mpiexec); source = view reached by a random view program (as C01, D 1..4) over an array of int/double/float; message(source.elements()) is packed with MPI_Pack: byte count and every packed element vs. the canonical sequence of the table model; '
                      'then MPI_Unpack or MPI_Sendrecv-to-self into message(dst.elements()) of a destination with equal extents but another layout (8 kinds: transposed/rotated/unrotated/reversed storage, padded block, strided-of-doubled, subarray) over poisoned storage: k-th element to k-th element, nothing outside the destination view touched. '
+                     'Every 50th case is a huge-stride probe: a 2-3 row array_ref over a lazily committed anonymous mapping whose rows are 2^31, 2^31+16 or 2^32+8 bytes apart; sub-block, column and transposed sub-block are packed and unpacked through message(elements()) (skipped and counted if the mapping is refused). '
                      'A PMPI interposer keeps a ledger of MPI_Type_create_hvector/resized/vector/dup/contiguous/commit/free and of the datatypes used by Pack/Unpack/Sendrecv: used while uncommitted or dead, freed twice, or never freed are violations. distinct = hash(view program, destination kind, transfer kind); non-trivial = >= 2 elements',
                 assumptions=['one process: Sendrecv to self over MPI_COMM_SELF exercises the same datatype engine as a remote transfer', 'Open MPI internals are uninstrumented (memcheck pass in thorough)']),
     'C17': dict(fn=c17, level='exploration',
-                rule='Boost.Serialization 1.83 text/binary/XML archives; element types int, double, std::string (with spaces and XML metacharacters), nested multi::array<int,1>; ranks 1..4; extents 0..4 incl. all-zero and single-zero; '
+                rule='Boost.Serialization 1.83 text/binary/XML archives; element types int, double, std::string (with spaces and XML metacharacters), nested multi::array<int,1>; ranks 1..4; extents 0..4 incl. all-zero and single-zero; first indices 0, -2..2 and (one re-based case in five) around +-2^31, 3e9, -5e9; '
                      'whole-array round trip into a loading array in prior state {empty, same extents, other extents, larger, moved-from, same count but other extents}: extents, elements, ==, and re-saving gives the identical archive (XML archives of ints are parsed independently: exactly num_elements items in canonical order); '
                      'view round trip: a view {whole, rotated, sub-block, strided, transposed} is saved and loaded into the same kind of view over another root: k-th element to k-th element, everything outside the loaded view untouched; the same archive is also loaded into a contiguous view of equal extents, and the archive of a contiguous view into the laid-out view (the archive of a view must not depend on its memory layout). distinct = hash(archive kind, prior state / view kind, emptiness); non-trivial = >= 2 elements',
                 assumptions=['0-D arrays are not serialised here (reduced interface)']),
@@ -289,7 +290,7 @@ REGISTRY = {
                 assumptions=['guard canaries + poisoned padding stand in for ASan inside LAPACK (memcheck in thorough)', 'gesvd convention: the 4th output holds V^T (A = U diag(s) VT)', 'syev.hpp does not compile at the pinned commit: reported as a finding, not exercised']),
     'C15': dict(fn=c15, level='exploration',
                 rule='random cases: D 1..4, extents 1..6 (non powers of two, size-1 dimensions forced sometimes), all 2^D masks, both signs, input and output layouts independently from {contiguous, rotated root, unrotated root, transposed root, padded block, strided-of-doubled} over guarded roots (64 canaries, poisoned padding); '
-                     'modes: out-of-place dft, in-place overload, forward followed by backward. Oracle: direct O(N^2) DFT along exactly the masked dimensions (batches over the rest) with tolerance 1e-10*N*max|in|; distinct input bit-identical afterwards; every root element outside the output view untouched; forward∘backward == N_transformed * input. '
+                     'modes: out-of-place dft, in-place overload, forward followed by backward, a plan executed on other arrays of the same layouts, and (D >= 2) an owning array constructed from / assigned the lazy range fft::dft(which, in, dir) / dft_forward / dft_backward of adaptors/fft.hpp (extents of the input, elements of the direct DFT, input untouched). Oracle: direct O(N^2) DFT along exactly the masked dimensions (batches over the rest) with tolerance 1e-10*N*max|in|; distinct input bit-identical afterwards; every root element outside the output view untouched; forward∘backward == N_transformed * input. '
                      'thorough adds a valgrind memcheck pass (reads/writes inside FFTW). distinct = hash(mask, layout pair, mode, sign, size classes); non-trivial = more than one element and more than one transformed point',
                 assumptions=['FFTW itself is trusted as a black box only through its observable reads/writes: ASan cannot see inside it (canaries/poison in quick, memcheck in thorough)']),
     'C13': dict(fn=c13, level='exploration', exhaustive=True,
